@@ -17,8 +17,13 @@ type Interp struct {
 	P       *load.Prog
 	globals map[types.Object]*Cell
 	Fuel    int
-	// Unsupported records the first construct outside the evaluator's subset.
 	lits map[*ast.FuncLit]*packages.Package
+	// VFS is the virtual file system behind os.Open/ReadFile: absolute path ->
+	// abstract File value. The parser is never evaluated: an imported file is
+	// whatever abstract schema the checker placed at that path.
+	VFS map[string]*StructV
+	// Opened records every path the generator tried to open, in order.
+	Opened []string
 }
 
 func New(p *load.Prog) *Interp {
@@ -97,6 +102,13 @@ func (in *Interp) apply(fv *FuncV, args []Value, at token.Pos) []Value {
 		return in.native(fv, args, at)
 	}
 	pkg := in.P.Owner(fv.Obj)
+	if fv.Obj.Name() == "ReadFile" && pkg == in.P.Bebop() && len(args) == 1 {
+		// reading an imported schema: served from the virtual file system
+		if f, ok := args[0].(*VFile); ok {
+			return []Value{copyVal(f.File), nil, nil}
+		}
+		panic(evalErr("ReadFile on something that is not a virtual file"))
+	}
 	fr := &frame{vars: map[types.Object]*Cell{}, pkg: pkg}
 	in.bindParams(fr, decl.Type, decl.Recv, fv.Recv, args, pkg.TypesInfo)
 	in.execBlock(fr, decl.Body)
